@@ -289,7 +289,7 @@ def record_history(ctx, lc, defaults, tid, nobj, ncalls, maxlen=30):
             ev.append({"kind": "set_palette", "obj": o, "arg": j, "accepted": out[0] == "ok", "post": post()})
         else:
             o2 = rng.choice([i for i in range(1, nobj + 1) if i != o])
-            frozen = set(rng.sample(range(len(objs[o])), rng.randint(0, 2)))
+            frozen = set(rng.sample(range(len(objs[o])), rng.randint(0, min(2, len(objs[o])))))
             out = common.call(objs[o].get_shuffled_sequence, frozen)
             if out[0] != "ok":
                 ctx.violation("shuffle-failed", {"seq": objs[o].get_sequence(), "frozen": sorted(frozen)}, actual=out)
